@@ -607,7 +607,31 @@ func ruleReplyFormat(c *Ctx) {
 			}
 		}
 		R.Ob(c.siteKey(in, "PrintfLine text is LF-split"), c.P.InstrPos(in), lfSplit, "printed text is "+args)
+		// the element itself is printed, not a function of it (trimmed, truncated, re-cased, ...)
+		if vs := varargValues(cc.Args[2]); len(vs) > 0 {
+			tv := stripConv(vs[len(vs)-1])
+			_, isCall := tv.(*ssa.Call)
+			_, isBin := tv.(*ssa.BinOp)
+			R.Ob(c.siteKey(in, "PrintfLine prints the line itself"), c.P.InstrPos(in), !isCall && !isBin, "the printed text is "+describe(tv)+", a function of the reply line: the backend's message text does not reach the peer intact")
+		}
 	})
+	// ... and printed as they are: no element of a string slice is rewritten between the split and the print
+	nElemStores := 0
+	allInstrs(f, func(in ssa.Instruction) {
+		st, ok := in.(*ssa.Store)
+		if !ok {
+			return
+		}
+		ia, ok := st.Addr.(*ssa.IndexAddr)
+		if !ok {
+			return
+		}
+		if strings.Contains(ia.X.Type().String(), "string") {
+			nElemStores++
+			R.Ob(c.siteKey(in, "reply text lines are not rewritten"), c.P.InstrPos(in), false, "a line of the reply text is replaced by "+describe(st.Val)+" before it is printed: the backend's message text does not reach the peer intact")
+		}
+	})
+	R.Ob("(*Conn).writeResponse/text lines printed unmodified", c.P.Pos(f.Pos()), nElemStores == 0, fmt.Sprintf("%d stores into the text lines", nElemStores))
 	res := CountPathsOpt(f, CountOpts{Count: func(in ssa.Instruction) (int, int) {
 		if isStaticCall(in, "(*textproto.Writer).PrintfLine") {
 			if format, ok := constString(callCommon(in).Args[1]); ok && strings.HasPrefix(format, "%d ") {
